@@ -191,6 +191,26 @@ def oracle_connect(case):
                 exp = [vo[o] for o in other['outputs']]
                 if got != exp:
                     return f'block {name} extracted computes {got} instead of {exp} at {a}'
+        # ... and still does after a LATER public edit of the composed circuit: a base gate that feeds the attached
+        # circuit (first one that feeds several of its inputs, if any) is renamed; the block follows the renaming
+        feeders = [t for t in tc if list(tc).count(t) > 1] + list(tc)
+        if not right and feeders and feeders[0] + '~c' not in cb._gates:
+            t_old, t_new = feeders[0], feeders[0] + '~c'
+            cb3 = ct.build_circuit(snap_res)
+            try:
+                cb3.rename_gate(t_old, t_new)
+                sub3 = cb3.get_block(name).into_circuit()
+            except Exception as e:  # noqa: BLE001
+                return f'after rename_gate({t_old!r}, {t_new!r}) block {name}.into_circuit() raises {type(e).__name__}: {e}'
+            msg = wforacle.wf_violation(cb3) or wforacle.wf_violation(sub3)
+            if msg:
+                return f'after rename_gate({t_old!r}, {t_new!r}) the circuit / block {name} is not well formed: {msg}'
+            want = sorted({t_new if x == t_old else x for x in block_in})
+            if sorted(sub3._inputs) != want:
+                return (f'after rename_gate({t_old!r}, {t_new!r}) block {name} extracted has inputs '
+                        f'{list(sub3._inputs)}, the attached inputs are {want}')
+            if len(sub3._outputs) != len(other['outputs']):
+                return f'after rename_gate block {name} has {len(sub3._outputs)} outputs'
     return None
 
 
@@ -257,6 +277,16 @@ def oracle_miter(case):
         return None
     from cirbo.sat.miter import build_miter
     from cirbo.sat.exceptions import MiterDifferentShapesError
+    # operands with a HISTORY: gates renamed through the public rename_gate before the miter is built (each gate at
+    # most once, onto fresh labels); the operand is then the renamed circuit, and the property speaks about it
+    ren = case.get('renames') or {}
+    for side, c in (('left', cl), ('right', cr)):
+        for old, new in ren.get(side, []):
+            c.rename_gate(old, new)
+    if ren.get('left'):
+        l = gen.rename_dump(l, dict(map(tuple, ren['left'])))
+    if ren.get('right'):
+        r = gen.rename_dump(r, dict(map(tuple, ren['right'])))
     bl, br = ct.dump_circuit(cl), ct.dump_circuit(cr)
     same_shape = len(l['inputs']) == len(r['inputs']) and len(l['outputs']) == len(r['outputs'])
     spoil_gadgets(len(l['outputs']))
